@@ -523,9 +523,9 @@ Eval vm_compute in (bad ok cases).
 OK_1D = """Definition ok (c : option xsym * list (list item) * list (list Z)) : bool :=
   let '(x0, gs, exp) := c in
   match trace_g gen_methods (init XSym x0) gs with Some tr => zll_eqb tr exp | None => false end."""
-OK_2D = """Definition ok (c : option Z * option Z * list item2 * list (list Z)) : bool :=
-  let '(x0, z0, l, exp) := c in
-  match trace2_t gen_methods (init2 x0 z0) l with Some tr => zll_eqb tr exp | None => false end."""
+OK_2D = """Definition ok (c : option Z * option Z * list (list item2) * list (list Z)) : bool :=
+  let '(x0, z0, gs, exp) := c in
+  match trace2_g gen_methods (init2 x0 z0) gs with Some tr => zll_eqb tr exp | None => false end."""
 
 
 def histories(ctx, dim, count):
@@ -649,8 +649,8 @@ def run(ctx):
     ctx.note(f'{n1} 1-D and {n2} 2-D histories; every call also made on a fresh object and compared bit for bit; '
              f'{num} calls raised something other than ValueError (numerical failures in the body; every raise is accepted at the predicted stage or at the end of the body, the cache state must match either way). '
              '1-D optimizers are in the histories (adaptive_minmax and collab_pls as groups of delegated calls on the same object, '
-             'optimize_extended_range and custom_bc fit on a new object via _override_x). Not covered: 2-D optimizers (collab_pls, adaptive_minmax, '
-             'individual_axes) in the correspondence; nested optimizers; objects whose lazily created x has one point; non-integer / array-like parameters; '
+             'optimize_extended_range and custom_bc fit on a new object via _override_x); 2-D adaptive_minmax / collab_pls / individual_axes likewise. '
+             '2-D histories include pspline_iasls pairs whose keys differ on exactly one axis (lazy full basis). Not covered: nested optimizers; objects whose lazily created x has one point; non-integer / array-like parameters; '
              'check_finite=False objects; pentapy-absent environments')
 
 
